@@ -3,6 +3,7 @@ from __future__ import annotations
 
 import ast
 
+from . import generic
 from sa.absint import Evaluator, all_effects, flatten_effects
 from sa.index import AnalysisError, walk_no_nested
 from sa.schema import KeyRef
@@ -207,8 +208,7 @@ def manifest_digest(ctx):
     fi = repo.func(ENVM, f"{MIXIN}.update_digest")
     fq = ctx.fq(fi)
     outs = [o for o in ev.outcomes(fi) if o.kind == "return"]
-    if len(outs) != 1:
-        raise AnalysisError(f"{fq}: expected one outcome")
+    outs = generic.sole_outcome(ctx, outs, f"{fq}: expected one outcome")
     o = outs[0]
     sets = []
     for e in all_effects(o.effects):
@@ -287,8 +287,7 @@ def severable_digests(ctx):
     fi = repo.func(ENVM, f"{MIXIN}.update_severable_digests")
     fq = ctx.fq(fi)
     outs = [o for o in ev.outcomes(fi) if o.kind == "return"]
-    if len(outs) != 1:
-        raise AnalysisError(f"{fq}: expected one outcome")
+    outs = generic.sole_outcome(ctx, outs, f"{fq}: expected one outcome")
     o = outs[0]
     sev, envk = severable_members(ctx)
     if len(sev) < 5:
